@@ -253,7 +253,7 @@ def index_plan():
 def index_case_list(seed: int, tier: str):
     rng = Rng(seed * 1000003 + 1414)
     out = []
-    reps = 1 if tier == "quick" else 3
+    reps = 1 if tier == "quick" else 8
     for si, fam, pos, kinds in index_plan():
         spec = SPECS[si]
         faults = {"label": LABEL_FAULTS, "score": SCORE_FAULTS, "k": K_FAULTS}[fam]
